@@ -8,11 +8,13 @@
                    state into the outgoing http.Request (headers, cookies, GetBody)
      retry.go      retryOption, backoffInterval
      middleware.go parseRequestHeader, parseRequestCookie, parseRequestURL (query merge
-                   only), parseRequestBody (payload-forbid, client form merge, form
-                   encoding, content-type detection) - run again on EVERY attempt
+                   and path parameters), parseRequestBody (payload-forbid, client form merge,
+                   ordered + plain form encoding, content-type detection) - run
+                   again on EVERY attempt
    Abstracted: the transport (an explicit per-attempt outcome list), http.DetectContentType
-   (a function argument), url.QueryEscape (identity on the harness alphabet), multipart
-   bodies (harness oracle only), time.Sleep.  No proofs in this file. *)
+   (a function argument), marshal bodies (SetBody with a struct/map: Go oracle only),
+   url.QueryEscape / url.PathEscape (identity on the harness alphabet), multipart bodies
+   (Model/RetryUpload.v), time.Sleep.  No proofs in this file. *)
 From ReqV Require Export Lib.Bytes.
 From Coq Require Import Lia.
 
@@ -78,7 +80,8 @@ Record client := mkClient {
   c_cookies : list (bytes * bytes);
   c_form : amap;
   c_query : amap;
-  c_allow_get_payload : bool
+  c_allow_get_payload : bool;
+  c_pparams : list (bytes * bytes)     (* client-level path parameters *)
 }.
 
 (* r.GetBody *)
@@ -98,27 +101,24 @@ Record rstate := mkR {
   r_getbody : getbody;
   r_reader : bytes;                   (* what is left in r.unReplayableBody *)
   r_unreplayable : bool;              (* r.unReplayableBody != nil *)
-  r_attempt : Z                       (* r.RetryAttempt *)
+  r_attempt : Z;                      (* r.RetryAttempt *)
+  r_path : bytes;                     (* path of RawURL, with {name} placeholders *)
+  r_pparams : list (bytes * bytes);   (* r.PathParams *)
+  r_ordered : list (bytes * bytes)    (* r.OrderedFormData, as pairs *)
 }.
 
 Definition set_headers (s : rstate) (h : amap) : rstate :=
-  mkR (r_method s) (r_rawquery s) h (r_cookies s) (r_form s) (r_query s) (r_body s) (r_getbody s)
-      (r_reader s) (r_unreplayable s) (r_attempt s).
+  mkR (r_method s) (r_rawquery s) h (r_cookies s) (r_form s) (r_query s) (r_body s) (r_getbody s) (r_reader s) (r_unreplayable s) (r_attempt s) (r_path s) (r_pparams s) (r_ordered s).
 Definition set_cookies (s : rstate) (c : list (bytes * bytes)) : rstate :=
-  mkR (r_method s) (r_rawquery s) (r_headers s) c (r_form s) (r_query s) (r_body s) (r_getbody s)
-      (r_reader s) (r_unreplayable s) (r_attempt s).
+  mkR (r_method s) (r_rawquery s) (r_headers s) c (r_form s) (r_query s) (r_body s) (r_getbody s) (r_reader s) (r_unreplayable s) (r_attempt s) (r_path s) (r_pparams s) (r_ordered s).
 Definition set_form (s : rstate) (f : amap) : rstate :=
-  mkR (r_method s) (r_rawquery s) (r_headers s) (r_cookies s) f (r_query s) (r_body s) (r_getbody s)
-      (r_reader s) (r_unreplayable s) (r_attempt s).
+  mkR (r_method s) (r_rawquery s) (r_headers s) (r_cookies s) f (r_query s) (r_body s) (r_getbody s) (r_reader s) (r_unreplayable s) (r_attempt s) (r_path s) (r_pparams s) (r_ordered s).
 Definition set_body (s : rstate) (b : option bytes) (g : getbody) : rstate :=
-  mkR (r_method s) (r_rawquery s) (r_headers s) (r_cookies s) (r_form s) (r_query s) b g
-      (r_reader s) (r_unreplayable s) (r_attempt s).
+  mkR (r_method s) (r_rawquery s) (r_headers s) (r_cookies s) (r_form s) (r_query s) b g (r_reader s) (r_unreplayable s) (r_attempt s) (r_path s) (r_pparams s) (r_ordered s).
 Definition set_reader (s : rstate) (rd : bytes) : rstate :=
-  mkR (r_method s) (r_rawquery s) (r_headers s) (r_cookies s) (r_form s) (r_query s) (r_body s) (r_getbody s)
-      rd (r_unreplayable s) (r_attempt s).
+  mkR (r_method s) (r_rawquery s) (r_headers s) (r_cookies s) (r_form s) (r_query s) (r_body s) (r_getbody s) rd (r_unreplayable s) (r_attempt s) (r_path s) (r_pparams s) (r_ordered s).
 Definition set_attempt (s : rstate) (a : Z) : rstate :=
-  mkR (r_method s) (r_rawquery s) (r_headers s) (r_cookies s) (r_form s) (r_query s) (r_body s) (r_getbody s)
-      (r_reader s) (r_unreplayable s) a.
+  mkR (r_method s) (r_rawquery s) (r_headers s) (r_cookies s) (r_form s) (r_query s) (r_body s) (r_getbody s) (r_reader s) (r_unreplayable s) a (r_path s) (r_pparams s) (r_ordered s).
 
 Definition content_type : bytes := bs "Content-Type".
 Definition form_content_type : bytes := bs "application/x-www-form-urlencoded".
@@ -161,22 +161,34 @@ Variable detect : bytes -> bytes.   (* http.DetectContentType *)
    (RetryAttempt = 0, flag false) whose hooks leave RetryAttempt alone both are true on the
    first pass and false on every later one (a payload-forbidden pass returns before the merge
    in the code and in the model alike). *)
+(* handleOrderedFormData: the ordered pairs in order, then the plain form data (86187ab) *)
+Definition ordered_encode (od : list (bytes * bytes)) (form : amap) : bytes :=
+  let o := join_with [amp] (map (fun kv => fst kv ++ [eqs] ++ snd kv) od) in
+  let f := encode_values form in
+  if nonempty f then (if nonempty o then o ++ [amp] ++ f else f) else o.
+
+(* the tail of parseRequestBody: guess the content type of an in-memory body *)
+Definition detect_stage (c : client) (s : rstate) : rstate :=
+  match r_body s with
+  | None => s
+  | Some b =>
+      if nonempty (hfirst content_type (c_headers c)) then s
+      else if nonempty (hfirst content_type (r_headers s)) then s
+      else set_headers s (hset content_type [detect b] (r_headers s))
+  end.
+
 Definition prep_body_gen (merge_always : bool) (c : client) (s : rstate) : rstate :=
   if payload_forbid c (r_method s) then set_body s None GBNil
   else
     let s1 := if nonempty (c_form c) && (merge_always || (r_attempt s <=? 0)%Z)
               then set_form s (add_values (c_form c) (r_form s)) else s in
-    if nonempty (r_form s1) then
+    if nonempty (r_ordered s1) then
+      let enc := ordered_encode (r_ordered s1) (r_form s1) in
+      set_body (set_headers s1 (hset content_type [form_content_type] (r_headers s1))) (Some enc) (GBStatic enc)
+    else if nonempty (r_form s1) then
       let enc := encode_values (r_form s1) in
       set_body (set_headers s1 (hset content_type [form_content_type] (r_headers s1))) (Some enc) (GBStatic enc)
-    else
-      match r_body s1 with
-      | None => s1
-      | Some b =>
-          if nonempty (hfirst content_type (c_headers c)) then s1
-          else if nonempty (hfirst content_type (r_headers s1)) then s1
-          else set_headers s1 (hset content_type [detect b] (r_headers s1))
-      end.
+    else detect_stage c s1.
 Definition prep_body := prep_body_gen false.
 
 (* one pass of client.beforeRequest: header, cookie, (url), body *)
@@ -197,8 +209,31 @@ Definition wire_query (c : client) (s : rstate) : bytes :=
     (if nonempty (r_rawquery s) then r_rawquery s ++ [amp] ++ encode_values q else encode_values q)
   else r_rawquery s.
 
+(* strings.Replace(s, pat, rep, -1) for a non-empty pattern *)
+Fixpoint replace_fuel (fuel : nat) (pat rep s : bytes) : bytes :=
+  match fuel with
+  | O => s
+  | S f =>
+      match s with
+      | [] => []
+      | b :: s' =>
+          if nonempty pat && bytes_eqb (firstn (length pat) s) pat
+          then rep ++ replace_fuel f pat rep (skipn (length pat) s)
+          else b :: replace_fuel f pat rep s'
+      end
+  end.
+Definition replace_all (pat rep s : bytes) : bytes := replace_fuel (S (length s)) pat rep s.
+
+(* parseRequestURL's path parameters: "{name}" replaced by the value, the request's first, then
+   the client's (url.PathEscape is the identity on the harness alphabet) *)
+Definition subst_params (ps : list (bytes * bytes)) (t : bytes) : bytes :=
+  fold_left (fun t kv => replace_all ([x7b] ++ fst kv ++ [x7d]) (snd kv) t) ps t.
+Definition wire_path (c : client) (s : rstate) : bytes :=
+  subst_params (c_pparams c) (subst_params (r_pparams s) (r_path s)).
+
 Record wire := mkWire {
   w_method : bytes;
+  w_path : bytes;
   w_query : bytes;
   w_headers : amap;
   w_cookies : list (bytes * bytes);
@@ -213,7 +248,7 @@ Definition body_now (s : rstate) : option bytes :=
   end.
 
 Definition wire_of (c : client) (s : rstate) : wire :=
-  mkWire (r_method s) (wire_query c s) (r_headers s) (r_cookies s) (body_now s).
+  mkWire (r_method s) (wire_path c s) (wire_query c s) (r_headers s) (r_cookies s) (body_now s).
 
 (* the transport reads the body to the end *)
 Definition after_send (s : rstate) : rstate :=
@@ -221,7 +256,7 @@ Definition after_send (s : rstate) : rstate :=
 
 (* two outgoing requests are the same request: headers compared as maps *)
 Definition wire_same (a b : wire) : Prop :=
-  w_method a = w_method b /\ w_query a = w_query b /\ w_cookies a = w_cookies b /\
+  w_method a = w_method b /\ w_path a = w_path b /\ w_query a = w_query b /\ w_cookies a = w_cookies b /\
   w_body a = w_body b /\ forall k, hget k (w_headers a) = hget k (w_headers b).
 
 (* ---------- retry option and its setters ---------- *)
